@@ -310,7 +310,26 @@ Proof. unfold htp_cts. htp_fin. Qed.
 Lemma htp_ack_st r dst : rstatic r (snd (fst (fst (htp_ack r dst)))).
 Proof. unfold htp_ack. htp_fin. Qed.
 Lemma htp_dt_st r src dst len buf : rstatic r (snd (fst (fst (htp_dt r src dst len buf)))).
-Proof. unfold htp_dt. htp_fin. Qed.
+Proof.
+  unfold htp_dt. cbv zeta.
+  destruct (_ <? nslots r); [|apply rstatic_refl].
+  set (idx := find_tp_slot (r_slots r) src dst 0).
+  pose proof (chk_slot_st r idx) as S0. set (r2 := chk_slot r idx) in *.
+  destruct (_ =? byte buf 0).
+  - destruct (_ >=? _).
+    + match goal with |- context [set_slot r2 idx ?x] => pose proof (set_slot_st r2 idx x) as S1; set (r3 := set_slot r2 idx x) in * end.
+      destruct (_ && _); cbn [fst snd]; [|eapply rstatic_trans; eassumption].
+      match goal with |- context [send_tpcm_endack ?a ?b ?c ?d ?e ?g] => pose proof (send_tpcm_endack_st a b c d e g) as S2; destruct (send_tpcm_endack a b c d e g) end.
+      cbn [fst snd] in *. eapply rstatic_trans; [eassumption|]. eapply rstatic_trans; eassumption.
+    + match goal with |- context [set_slot r2 idx ?x] => pose proof (set_slot_st r2 idx x) as S1; set (r3 := set_slot r2 idx x) in * end.
+      destruct (_ && _ && _); cbn [fst snd]; [|eapply rstatic_trans; eassumption].
+      match goal with |- context [send_tpcm_cts ?a ?b ?c ?d ?e ?g] => pose proof (send_tpcm_cts_st a b c d e g) as S2; destruct (send_tpcm_cts a b c d e g) end.
+      cbn [fst snd] in *. eapply rstatic_trans; [eassumption|]. eapply rstatic_trans; eassumption.
+  - destruct (_ && _).
+    + match goal with |- context [send_tpcm_abort ?a ?b ?c ?d ?e] => pose proof (send_tpcm_abort_st a b c d e) as S2; destruct (send_tpcm_abort a b c d e) as [r3 ev] end.
+      cbn [fst snd] in *. eapply rstatic_trans; [eassumption|]. eapply rstatic_trans; [eassumption|apply set_slot_st].
+    + cbn [fst snd]. eapply rstatic_trans; [eassumption|apply set_slot_st].
+Qed.
 Lemma handle_tp_st r pgn src dst len buf : rstatic r (snd (fst (fst (handle_tp r pgn src dst len buf)))).
 Proof.
   rewrite handle_tp_split. cbv zeta.
@@ -496,6 +515,13 @@ Proof.
   induction k as [|k IH]; intros r i iv off; cbn [set_heartbeat_all]; [apply rstatic_refl|].
   cbv zeta. brk; repeat match goal with H : millis64 _ = _ |- _ => apply millis64_st' in H end;
     match goal with |- context [set_heartbeat_all k ?a ?b ?c ?d] => pose proof (IH a b c d) end; fin.
+Qed.
+
+Lemma resync_heartbeats_st k : forall r i, rstatic r (resync_heartbeats k r i).
+Proof.
+  induction k as [|k IH]; intros r i; cbn [resync_heartbeats]; [apply rstatic_refl|].
+  cbv zeta. brk; repeat match goal with H : millis64 _ = _ |- _ => apply millis64_st' in H end;
+    match goal with |- context [resync_heartbeats k ?a ?b] => pose proof (IH a b) end; fin.
 Qed.
 
 Lemma start_claim_all_st k : forall r i, rstatic r (fst (start_claim_all k r i)).
